@@ -47,6 +47,46 @@ def sample(ctx, scns):
     return sorted(keep + rest[:2200], key=lambda s: s["id"])
 
 
+STATE_FACTS = ("delegFunds", "creditGE", "sponsorSel", "sponsorFunds", "contractFunds", "originFunds")
+
+
+def make_blocks(ctx, scns):
+    """Group scenarios into blocks of 3-5 txs that run on ONE runtime / ONE state: successful txs first, then a tx whose
+    LATER clause fails after its earlier clauses overwrote the slots the previous txs wrote, then another successful one.
+    Only scenarios needing the same pre-state (payer facts) share a block."""
+    rng = random.Random(ctx.seed * 7 + 1)
+    groups = {}
+    for s in scns:
+        if s["setup"] == "matrix" or s["fam"] != "scn":
+            continue
+        key = tuple(s["facts"][k] for k in STATE_FACTS)
+        groups.setdefault(key, []).append(s)
+    blocks = []
+    want = 140 if ctx.quick else 1500
+    for key in sorted(groups):
+        g = groups[key]
+        ok = [s for s in g if s["start"] == "ok" and not s["exp"]["reverted"] and s["exp"]["started"]]
+        bad = [s for s in g if s["start"] == "ok" and s["exp"]["reverted"] and len(s["kinds"]) >= 2]
+        rej = [s for s in g if not s["exp"]["started"]]
+        rng.shuffle(ok)
+        rng.shuffle(bad)
+        rng.shuffle(rej)
+        share = max(4, want * len(g) // max(1, len(scns)))
+        while len(ok) >= 3 and bad and share > 0:
+            share -= 1
+            members = [ok.pop(), ok.pop(), bad.pop()]
+            if rej and rng.random() < 0.3:
+                members.insert(2, rej.pop())
+            members.append(ok.pop())
+            if bad and rng.random() < 0.4:
+                members.append(bad.pop())
+            ids = [m["id"] for m in members]
+            dyn = any(m["txtype"] == "dyn" for m in members)
+            world = rng.choice(["post", "hay", "fork"] if dyn else ["pre", "post", "hay", "fork", "pre"])
+            blocks.append({"ids": ids, "world": world, "role": rng.choice(["", "", "pb", "sb"])})
+    return blocks
+
+
 def run(ctx):
     q = ctx.quick
     ec.bignat_selftest(ctx)
@@ -71,7 +111,10 @@ def run(ctx):
     out = ctx.tmp("txexec")
     scn_path = os.path.join(out, "scenarios.json")
     json.dump(scns, open(scn_path, "w"))
-    argv = ["-out", out, "-seed", str(ctx.seed), "-scn", scn_path] + argv_extra
+    blk_path = os.path.join(out, "blocks.json")
+    blocks = make_blocks(ctx, scns) if len(scns) > 10 else []
+    json.dump(blocks, open(blk_path, "w"))
+    argv = ["-out", out, "-seed", str(ctx.seed), "-scn", scn_path, "-blk", blk_path] + argv_extra
     o = ec.run_driver(ctx, binp, argv, "txexec", timeout=3000)
     if o is None:
         return
@@ -124,6 +167,11 @@ def run(ctx):
     ctx.cov["txs_reverted"] = sum(1 for e in started if e["reverted"])
     ctx.cov["txs_with_refund_cap_binding"] = sum(1 for e in started if any(r["ctr"] > (r["in"] - r["left"]) // 2 for r in e["raws"]))
     ctx.cov["txs_rejected_at_start"] = ntx - len(started)
+    ctx.cov["multi_tx_blocks"] = summary.get("multiTxBlocks", 0)
+    ctx.cov["txs_after_an_earlier_tx_in_the_same_state"] = sum(1 for e in events if e["e"] == "Tx" and e.get("pos", 0) > 0)
+    ctx.cov["reverted_txs_after_earlier_txs"] = sum(1 for e in started if e.get("pos", 0) > 0 and e["reverted"])
+    ctx.cov["txs_by_world"] = {w: sum(1 for e in events if e["e"] == "Tx" and e["world"] == w) for w in ("pre", "post", "fork", "hay")}
+    ctx.cov["txs_payer_is_beneficiary"] = sum(1 for e in started if e.get("pb"))
     ctx.cov["f3_pattern_runs"] = summary["f3runs"]
     ctx.cov["f3_note"] = ("SELFDESTRUCT with beneficiary = self (finding F3 of C08) is part of the clause kinds (sdself); "
                           "it does not break atomicity: all-or-none held in every such run")
